@@ -164,15 +164,23 @@ def triage(o, full, raw, whole_out):
     r["checks"] = len([c for c in checks if ".cover." not in c[0]])
     failed_real = []
     failed_undec = []
+    stub_cov_total = 0
+    stub_cov_sat = 0
     for name, status, desc, loc in checks:
         if ".cover." in name or desc.startswith("cover condition"):
+            if desc == "error path reachable":
+                # the cover inside the generic error stub exists once per instantiation (&str, String, ..):
+                # one satisfied instantiation is enough
+                stub_cov_total += 1
+                stub_cov_sat += (status == "SATISFIED")
+                continue
             r["covers_total"] += 1
             if status == "SATISFIED":
                 r["covers_satisfied"] += 1
             continue
         if status == "FAILURE":
             item = {"check": name, "description": desc, "location": loc}
-            if any(re.search(p, desc) for p in UNDECIDED_PATTERNS):
+            if any(re.search(p, desc) for p in UNDECIDED_PATTERNS) or ".missing_definition." in name:
                 failed_undec.append(item)
             else:
                 failed_real.append(item)
@@ -181,6 +189,9 @@ def triage(o, full, raw, whole_out):
         for m in re.finditer(r"^Failed Checks: (.*)\n File: (.*)$", raw, re.M):
             item = {"check": "?", "description": m.group(1).strip(), "location": m.group(2).strip()}
             (failed_undec if any(re.search(p, item["description"]) for p in UNDECIDED_PATTERNS) else failed_real).append(item)
+    if stub_cov_total:
+        r["covers_total"] += 1
+        r["covers_satisfied"] += 1 if stub_cov_sat else 0
     artefacts = [f for f in failed_real if any(re.search(p, f["description"]) for p in TOOL_ARTEFACT_PATTERNS)]
     if artefacts:
         r["verdict"] = "undecided"
